@@ -286,8 +286,8 @@ def hxl(l):
     return ",".join(hx(x) for x in l) if l else "~"
 
 
-def model_line(case, repaired, lim=0):
-    return "%s %d %d %s\n" % ("c" if case["mode"] == "c" else "n", int(repaired), int(lim), hexs(case["input"]))
+def model_line(case, repaired, lim="0"):
+    return "%s %d %s %s\n" % ("c" if case["mode"] == "c" else "n", int(repaired), lim, hexs(case["input"]))
 
 
 def parse_model(line, mode):
@@ -339,7 +339,7 @@ def longest_run(hosts_expanded_model):
 
 # ------------------------------------------------------------------ judging one batch of cases
 class Judge:
-    def __init__(self, ctx, script, pdsh, repaired, lim=0):
+    def __init__(self, ctx, script, pdsh, repaired, lim="0"):
         self.ctx, self.script, self.pdsh, self.repaired, self.lim = ctx, script, pdsh, repaired, lim
         self.workdir = os.path.join(ctx.scratch, "dshbak-d")
         os.makedirs(self.workdir, exist_ok=True)
@@ -610,7 +610,13 @@ def run(ctx):
                            stdout=subprocess.PIPE, stderr=subprocess.PIPE)
         m = re.search(rb"^n\[1-(\d+)([,\]])", p.stdout, re.M)
         lim = int(m.group(1)) if (m and m.group(2) == b",") else 0
-        judge = Judge(ctx, script, pdsh, repaired, lim)
+        # F19-MANYRANGES repaired?  the number of elements in the first bracket of a 10300-element header
+        p = subprocess.run(["perl", script, "-c"], input="".join("n%d: x\n" % i for i in range(1, 20600, 2)).encode(),
+                           stdout=subprocess.PIPE, stderr=subprocess.PIPE)
+        m = re.search(rb"^n\[([0-9,]*)\](.?)", p.stdout, re.M)
+        mr = (m.group(1).count(b",") + 1) if (m and m.group(2) == b",") else 0
+        limits = "%d/%d" % (lim, mr)
+        judge = Judge(ctx, script, pdsh, repaired, limits)
         if ctx.replay:
             j = json.load(open(ctx.replay))
             cases = [case_from_json(j["case"]["case"] if "case" in j.get("case", {}) else j["case"])]
@@ -627,7 +633,8 @@ def run(ctx):
         dist = {"modes": {}, "streams": {}, "hosts_per_case": {}, "headers_expanded_by_pdsh": 0,
                 "bracketed_headers": 0, "process_launches": 0, "script_form": {0: "unchanged", 1: "D21-repaired", 2: "EMPTYSTEM-repaired",
                                                          3: "D21+EMPTYSTEM-repaired"}[repaired] +
-                               ("+LONGRUN-limit-%d" % lim if lim else "")}
+                               ("+LONGRUN-limit-%d" % lim if lim else "") +
+                               ("+MANYRANGES-limit-%d" % mr if mr else "")}
         distinct = set()
         nshrunk = 0
         CH = 400
@@ -672,7 +679,7 @@ def run(ctx):
                 # quick tier: the header model alone (compress of the one group) against the real header
                 if ctx.quick() and res["real"]["rc"] == 0 and len(res["real"]["blocks"]) == 1:
                     hdr = res["real"]["blocks"][0][0]
-                    ml = ctx.model("dshbak", "h %d %d %s\n" % (repaired, lim, ",".join(hx(t) for t, _ in recs)),
+                    ml = ctx.model("dshbak", "h %d %s %s\n" % (repaired, limits, ",".join(hx(t) for t, _ in recs)),
                                    args=["model"])[0]
                     groups = [bytes.fromhex(x).decode("latin-1") for x in ml.split("=")[0].split(",")]
                     if not header_is_perm_of(hdr, groups):
@@ -697,7 +704,20 @@ def run(ctx):
                 recs = [("n%d" % i, "x") for i in range(1, 2 * nr, 2)]
                 lc = {"stream": "plain", "mode": "c", "recs": recs, "hash_seed": 5,
                       "input": "".join("%s: x\n" % t for t, _ in recs).encode()}
-                res = judge.judge([lc], use_model=False)[0]
+                if ctx.quick() and mr > 0:
+                    # repaired script, quick tier: the accepted header would have to be expanded by 10241 forks;
+                    # compare the header text with the model here, the pdsh expansion is done in the thorough tier
+                    res = {"real": run_dshbak(script, lc, judge.workdir, 0), "verdicts": []}
+                else:
+                    res = judge.judge([lc], use_model=False)[0]
+                if res["real"]["rc"] == 0 and len(res["real"]["blocks"]) == 1:
+                    hdr = res["real"]["blocks"][0][0]
+                    ml = ctx.model("dshbak", "h %d %s %s\n" % (repaired, limits, ",".join(hx(t) for t, _ in recs)),
+                                   args=["model"])[0]
+                    groups = [bytes.fromhex(x).decode("latin-1") for x in ml.split("=")[0].split(",")]
+                    if not header_is_perm_of(hdr, groups):
+                        ctx.disagreement("dshbak header model vs scripts/dshbak (many ranges)",
+                                         "real `%s...` model `%s...`" % (hdr[:80], groups[0][:80]), {"manyranges": nr})
                 cov["evaluations"] += 1
                 dist["streams"]["manyranges"] = dist["streams"].get("manyranges", 0) + 1
                 for kind, sig, what in res["verdicts"]:
